@@ -308,6 +308,18 @@ def step (d0 : DState) (ws : List String) : DState × String :=
         report (settle fuel0 (runThread fuel0 d2 t)) "ok"
       | none => report d "noop"
     | _, _, _, _, _ => (d0, "bad-op")
+  | ["xcall", t, w, id, tok, kind, prog] =>
+    -- a stream turn (init / producer continuation / exchange / cancel) bearing the session: the same request
+    -- thread as a unary call (resolve, lock, handler, respond, unlock); it cannot open (no Accept header)
+    match t.toNat?, w.toNat?, parseIdent id, parseTok d tok, parseProg prog with
+    | some t, some w, some id, some tok, some prog =>
+      if ¬ ["init", "cont", "exch", "cancel"].contains kind then (d0, "bad-op") else
+      match apply d (.spawn t false w id tok false) with
+      | some d1 =>
+        let d2 := { d1 with thrs := d1.thrs ++ [{ id := t, prog := prog }] }
+        report (settle fuel0 (runThread fuel0 d2 t)) "ok"
+      | none => report d "noop"
+    | _, _, _, _, _ => (d0, "bad-op")
   | ["delete", t, w, id, tok] =>
     match t.toNat?, w.toNat?, parseIdent id, parseTok d tok with
     | some t, some w, some id, some tok =>
@@ -393,7 +405,7 @@ def step (d0 : DState) (ws : List String) : DState × String :=
         | none => "lost")
     | none => (d0, "bad-op")
   -- concurrent searches: the determinate values the theorems give for every interleaving
-  | ["stress", _, _, _] => (d, "overlap=0 closes=ok locks=free lostafter=1")
+  | ["stress", _, _, _] => (d, "overlap=0 closes=ok locks=free lostafter=1 drainopen=0")
   | ["realreaper", _] => (d, "evicted=1 closes=1")
   | _ => (d0, "bad-op")
 
